@@ -316,17 +316,32 @@ impl Scenario for RomLoadFaults {
             MustReject,
             RejectOrControlled,
             NoFaultOnly,
+            LoadableGarbage,
             Accept,
+        }
+        // what is really in the file after the damage (a torn write can, by coincidence, leave a header whose checksum holds)
+        let mut stub_intact = true;
+        if let Some(b) = built.as_mut() {
+            if b.file_len >= 0x150 {
+                if let Ok(bytes) = std::fs::read(&path) {
+                    b.header = bytes[0x100..0x150].to_vec();
+                    let end = (0x150 + b.stub.len()).min(bytes.len());
+                    stub_intact = bytes[0x150..end] == b.stub[..end - 0x150] && end - 0x150 == b.stub.len();
+                    // the stub must also match the header as it now reads (type / size codes decide what the stub has to do)
+                    let declared_now = refh::rom_bytes(b.header[0x48]).unwrap_or(0x8000);
+                    let (st_now, _) = stub(b.header[0x47], declared_now / 0x4000, refh::ram_bytes(b.header[0x49]).unwrap_or(0));
+                    if st_now != b.stub {
+                        stub_intact = false;
+                    }
+                    b.declared_len = declared_now;
+                }
+            }
         }
         let want = match &built {
             None => Want::MustReject,
             Some(b) => {
-                let torn_header = fault == F_TORN && (case.get("arg") as usize) < 0x14e;
                 if b.file_len < 0x150 {
                     Want::RejectOrControlled
-                } else if torn_header {
-                    // header bytes replaced by the fill: checksum of a constant run never matches
-                    Want::MustReject
                 } else if refh::checksum(&b.header[0x34..0x4d]) != b.header[0x4d] {
                     Want::MustReject
                 } else if !refh::supported_type(b.header[0x47]) {
@@ -335,6 +350,10 @@ impl Scenario for RomLoadFaults {
                     Want::NoFaultOnly
                 } else if b.file_len < b.declared_len {
                     Want::RejectOrControlled
+                } else if !stub_intact {
+                    // a loadable header in front of code that is not the stub: accepted by definition; what the garbage then
+                    // executes is not this property's subject (only a host-level fault would be)
+                    Want::LoadableGarbage
                 } else {
                     Want::Accept
                 }
@@ -392,6 +411,12 @@ impl Scenario for RomLoadFaults {
         let build = if jit { "jit" } else { "nonjit" };
         let bad = |what: &str| Violation::new("C19", format!("C19/{}/{}/{}", what, fname, build), describe.clone());
         match (want, got) {
+            (Want::LoadableGarbage, _) => {
+                ctx.cov.hit("probe.loadable_header_with_garbage_code");
+                if status.signal().is_some() {
+                    out.push(bad("fault-signal"));
+                }
+            }
             (_, Got::Fault) => out.push(bad(if status.signal().is_some() { "fault-signal" } else { "fault-after-load" })),
             (Want::MustReject, Got::Rejected) => {}
             (Want::MustReject, _) => out.push(bad("accepted-invalid-file")),
